@@ -101,7 +101,7 @@ func VxC16OnNewL1Head() {
 		if vx.InEngine() {
 			// nothing may be deleted without publishing a floor, except keep == 0 (deletes nothing)
 			for _, e := range vxPruneEnds {
-				vx.Assert(e == 0, "prune-without-floor-only-for-zero")
+				vx.Assert(e == 0, "engine:prune-without-floor-only-for-zero")
 			}
 		}
 		return
@@ -115,8 +115,8 @@ func VxC16OnNewL1Head() {
 		vx.Assert(keep <= sample, "keep-at-most-min-age-sample")
 	}
 	if vx.InEngine() {
-		vx.Assert(len(vxPruneEnds) == 1 && vxPruneEnds[0] == keep, "deletes-exactly-below-keep")
-		vx.Assert(vxFloorSeededAtPrune[0] && vxFloorAtPrune[0] == f, "floor-raised-before-delete")
+		vx.Assert(len(vxPruneEnds) == 1 && vxPruneEnds[0] == keep, "engine:deletes-exactly-below-keep")
+		vx.Assert(vxFloorSeededAtPrune[0] && vxFloorAtPrune[0] == f, "engine:floor-raised-before-delete")
 	}
 }
 
@@ -146,7 +146,7 @@ func VxC16OnNewBlock() {
 		vx.Cover("no-prune")
 		if vx.InEngine() {
 			for _, e := range vxPruneEnds {
-				vx.Assert(e == 0, "prune-without-floor-only-for-zero")
+				vx.Assert(e == 0, "engine:prune-without-floor-only-for-zero")
 			}
 		}
 		return
@@ -160,8 +160,8 @@ func VxC16OnNewBlock() {
 		if p.minAge > 0 && vxWithin {
 			vx.Assert(keep <= sample, "keep-at-most-min-age-sample")
 		}
-		vx.Assert(len(vxPruneEnds) == 1 && vxPruneEnds[0] == keep, "deletes-exactly-below-keep")
-		vx.Assert(vxFloorSeededAtPrune[0] && vxFloorAtPrune[0] == f, "floor-raised-before-delete")
+		vx.Assert(len(vxPruneEnds) == 1 && vxPruneEnds[0] == keep, "engine:deletes-exactly-below-keep")
+		vx.Assert(vxFloorSeededAtPrune[0] && vxFloorAtPrune[0] == f, "engine:floor-raised-before-delete")
 	}
 }
 
